@@ -3,7 +3,8 @@ from rules import shared as S
 
 LEVEL = "proof"
 TRUSTED = ["TB-rustc", "TB-sqlite", "TB-mutex", "TB-uuid"]
-EXPLANATION = "append-only version records: statement verbs, map mutators, who-may-call, stable lookup keys, no re-creation of a client row"
+EXPLANATION = ("append-only version records: statement verbs, map mutators, who-may-call, stable lookup keys, no re-creation of a client row; "
+               "read side: GetChildVersion answers from storage in one transaction (no cached state in Server), returning the looked-up record")
 
 
 def run(rep, W, ctx):
@@ -13,6 +14,10 @@ def run(rep, W, ctx):
     S.s_newclient(rep, W)
     S.c01_key(rep, W)
     S.s_class(rep, W)
+    # the read side: the child of a parent is answered from storage, inside one transaction, with no cache in between
+    S.s_txn1(rep, W, W.op("get_child_version"))
+    S.c08(rep, W)
+    S.c03_nostate(rep, W)
     # C07.NOREWRITE: no statement other than add_version's INSERT writes a column of `versions`
     for i in inst:
         if i.stmt and i.stmt["table"] == "versions" and i.stmt["writes"]:
